@@ -29,6 +29,11 @@ SRC = {
                   P + "general/parser_helper.py", P + "extensions/front_matter_markdown_token.py", P + "extensions/pragma_token.py"],
     "liststarts": [P + "list_blocks/list_block_starts_helper.py", P + "list_blocks/list_block_pre_list_helper.py", P + "list_blocks/list_block_can_close_helper.py",
                    P + "general/tab_helper.py", P + "general/parser_helper.py", P + "tokens/stack_token.py"],
+    "leafblocks2": [P + "html/html_helper.py", P + "leaf_blocks/leaf_block_helper.py", P + "leaf_blocks/fenced_leaf_block_processor.py",
+                    P + "leaf_blocks/indented_leaf_block_processor.py", P + "general/tab_helper.py", P + "general/parser_helper.py"],
+    "scanrules2": [P + "plugins/rule_md_0%s.py" % n for n in ("11", "13", "14", "18", "20", "28", "32", "33", "34")]
+                  + [P + "plugins/utils/*.py", P + "tokens/markdown_token.py", P + "plugin_manager/rule_plugin.py", P + "plugin_manager/plugin_scan_context.py",
+                     P + "plugin_manager/plugin_manager.py", P + "general/constants.py"],
     "inlineloop": [P + "inline/inline_processor.py", P + "inline/inline_text_block_helper.py", P + "inline/inline_line_end_helper.py",
                    P + "inline/inline_handler_helper.py", P + "inline/inline_request.py", P + "inline/inline_response.py", P + "inline/inline_helper.py",
                    P + "inline/inline_backslash_helper.py", P + "inline/inline_backtick_helper.py", P + "inline/inline_character_reference_helper.py",
@@ -213,4 +218,51 @@ def liststarts(ctx):
                               "marker sentence outside the classes the *_partial theorems exclude"})
     cov["disagreements"], cov["spec_departures_outside_excluded_classes"] = len(dis), len(fail)
     _store(ctx, "liststarts", cov, t0)
+    return cov
+
+
+def leafblocks2(ctx):
+    """Faithful models of the HTML-block start / end conditions (html_helper.is_html_block, special / normal checks, end checks), fenced-code content
+    lines and indented-code content lines vs the real functions and whole 2-3 line documents (Verif.Props.LeafBlocks2)."""
+    import leafblocks2lib
+    t0 = time.time()
+    cov = dict(leafblocks2lib.run(ctx, ctx.block_quick(SRC["leafblocks2"])))
+    dis, wit = cov.pop("disagreements"), cov.pop("failing_inputs")
+    for d in dis[:3]:
+        case = {"doc": d["doc"]} if isinstance(d, dict) and d.get("doc") is not None else {"leafblocks2_request": str(d.get("request", d) if isinstance(d, dict) else d)[:400]}
+        ctx.report(case, "leafblocks2-disagreement",
+                   {"detail": {k: str(v)[:400] for k, v in d.items()} if isinstance(d, dict) else str(d)[:800],
+                    "oracle": "real html_helper / fenced / indented functions and real block-pass tokens of short documents == Verif.Model.LeafBlocks2; type-6 tag table of the source == model's"})
+    cov["disagreements"] = len(dis)
+    cov["excluded_point_documents"] = [{"doc": w.get("document"), "property": w.get("property"), "symptom": str(w.get("symptom"))[:160]} for w in wit]
+    cov["excluded_point_note"] = ("documents at the points the *_partial / *_excluded statements name, run through the REAL parser: pinned-tree defects recorded as "
+                                  "documented-only entries F-LB2-* in known_findings.json (tab after a fence opener inside an indented fence, case-sensitive end tags, lenient type-7 tags)")
+    _store(ctx, "leafblocks2", cov, t0)
+    return cov
+
+
+def scanrules2(ctx):
+    """Faithful models of nine more scan-only rules incl. the two remaining line rules — MD011 MD013 MD014 MD018 MD020 MD028 MD032 MD033 MD034 — and
+    their joint pass (Verif.Props.ScanRules2) vs the real rule classes through a real PluginManager."""
+    import scanrules2lib
+    t0 = time.time()
+    cov = dict(scanrules2lib.run(ctx, ctx.block_quick(SRC["scanrules2"])))
+    dis, fail = cov.pop("disagreements"), cov.pop("failing_inputs")
+    for d in dis[:3]:
+        ctx.report({"scanrules2_input": d.get("input"), "job": d.get("job")}, "scanrules2-disagreement",
+                   {"detail": {k: str(v)[:400] for k, v in d.items()},
+                    "oracle": "real rule class through a real PluginManager (reports in order: line, column, rule, extra; exception kind; configuration; file B after "
+                              "file A) == Verif.Model.ScanRules2 on the abstraction of the same token stream and lines"})
+    crashes = [d for d in fail if str(d.get("property")) == "C07"]
+    fail = [d for d in fail if str(d.get("property")) != "C07"]
+    for d in fail[:3]:
+        ctx.report({"doc": d.get("document"), "job": d.get("job")}, "scanrules2-" + str(d.get("property", "C13")).lower(),
+                   {"detail": {k: str(v)[:400] for k, v in d.items()},
+                    "oracle": "C13: the reports of file B after file A are the reports of B on rule objects that scanned nothing"})
+    cov["disagreements"], cov["failing_inputs"] = len(dis), len(fail)
+    cov["real_rule_crashes_on_parsed_documents"] = len(crashes)
+    cov["real_rule_crash_samples"] = [{"doc": d.get("document"), "job": d.get("job"), "real": d.get("real")} for d in crashes[:4]]
+    cov["real_rule_crash_note"] = ("the model reproduces each of them as an explicit Err (agreement); whether a crash is a known finding is decided by C07's own oracle "
+                                   "(call-site signature AND listed input), e.g. F-CRASH-MD018-next_token_paragraph_text_inline")
+    _store(ctx, "scanrules2", cov, t0)
     return cov
